@@ -161,23 +161,26 @@ def oracle_batch_histories(ck, rng):
     import polars as pl
     from acryo import SubtomogramLoader, BatchLoader, Molecules
     n = 6 if ck.tier == "quick" else 60
+    from scipy.spatial.transform import Rotation
     for it in range(n):
-        b = BatchLoader(order=1, output_shape=(3, 3, 3))
+        cs = bool(it % 2)       # loader options (corner_safe here) must reach the per-tomogram loaders of the batch
+        b = BatchLoader(order=1, output_shape=(5, 5, 5), corner_safe=cs)
         truth = []          # (tomogram, positions) still in the batch, tagged with a unique marker per addition
         hist = []
         nadd = int(rng.integers(2, 5))
         for a_ in range(nadd):
-            tomo = rng.normal(size=(10, 10, 10)).astype(np.float32) + 5.0 * (a_ + 1)
+            tomo = rng.normal(size=(15, 15, 15)).astype(np.float32) + 5.0 * (a_ + 1)
             nm = int(rng.integers(1, 4))
-            pos = rng.integers(3, 7, size=(nm, 3)).astype(float)
+            pos = rng.integers(5, 10, size=(nm, 3)).astype(float)
             mark = 100 * it + a_
-            mol = Molecules(pos, features={"mark": [mark] * nm})
+            rot = Rotation.random(nm, random_state=int(rng.integers(0, 2**31)))
+            mol = Molecules(pos, rot, features={"mark": [mark] * nm})
             explicit = [None, None, int(rng.integers(0, 6))][int(rng.integers(0, 3))] if it % 2 else None
             if explicit is not None and explicit in b.images:
                 explicit = None
             b.add_tomogram(tomo, mol, image_id=explicit)
             hist.append(["add_tomogram", nm, explicit])
-            truth.append((tomo, pos, mark))
+            truth.append((tomo, pos, mark, rot))
             if a_ >= 1 and rng.random() < 0.6:
                 # drop every molecule of one earlier addition (its tomogram leaves the batch)
                 drop = truth[int(rng.integers(0, len(truth) - 1))][2]
@@ -186,9 +189,9 @@ def oracle_batch_histories(ck, rng):
                 hist.append(["filter-out", drop])
         if not truth:
             continue
-        want = np.zeros((3, 3, 3)); cnt = 0
-        for tomo, pos, mark in truth:
-            ld = SubtomogramLoader(tomo, Molecules(pos), order=1, output_shape=(3, 3, 3))
+        want = np.zeros((5, 5, 5)); cnt = 0
+        for tomo, pos, mark, rot in truth:
+            ld = SubtomogramLoader(tomo, Molecules(pos, rot), order=1, output_shape=(5, 5, 5), corner_safe=cs)
             want += ld.average() * len(pos); cnt += len(pos)
         want /= cnt
         ck.oracle_count("batch_history_average", 1, 1)
@@ -200,7 +203,7 @@ def oracle_batch_histories(ck, rng):
             ok, detail = False, f"raised {type(e).__name__}: {e}"
         if not ok:
             ck.violation(what=f"batch average after {hist} is not the count-weighted mean of the tomograms that were added: {detail}",
-                         inp={"history": hist}, key={"site": "batch-history", "auto_id_after_gap": any(h[0] == "filter-out" for h in hist)},
+                         inp={"history": hist, "corner_safe": cs}, key={"site": "batch-history", "auto_id_after_gap": any(h[0] == "filter-out" for h in hist), "corner_safe": cs},
                          oracle="batch_history_average")
 
 
